@@ -213,6 +213,8 @@ func (g *c15g) value(depth int) plan.Value {
 		return plan.Value{T: []string{"obj:immmap", "obj:objmap"}[g.r.Intn(2)], M: map[string]plan.Value{"k": plan.Int(k)}}
 	case x == 20:
 		return plan.Value{T: []string{"uint", "int16", "uint64", "float32", "struct", "strslice", "intslice"}[g.r.Intn(7)], I: k, F: 1.5, S: "x"}
+	case x == 21:
+		return plan.Value{T: []string{"nilbytes", "nilmap", "nilslice", "nilerror"}[g.r.Intn(4)]}
 	}
 	return plan.Int(k)
 }
@@ -228,10 +230,10 @@ func (g *c15g) setOp(obj int) plan.Op {
 	case x < 9:
 		return plan.Op{Kind: plan.OpSet, Obj: obj, Name: []string{"cst", "gx", "late", "acc", "acc2", "blk", "i", "format", "x03", "x16", "shw"}[g.r.Intn(11)], Val: vp(g.value(0))}
 	}
-	return plan.Op{Kind: plan.OpSet, Obj: obj, Name: "nosuch", Val: vp(plan.Int(g.u()))}
+	return plan.Op{Kind: plan.OpSet, Obj: obj, Name: []string{"nosuch", "", "Ini", "inx "}[g.r.Intn(4)], Val: vp(plan.Int(g.u()))}
 }
 
-var c15Names = []string{"gfa", "setg", "x00", "x07", "x08", "x15", "x16", "x17", "shw", "gsf", "sf", "format", "ini", "ins", "inx", "cst", "gx", "gi", "gs", "arr", "n", "m", "acc", "acc2", "blk", "i", "tmp", "late", "nf", "extra", "nosuch", "tick"}
+var c15Names = []string{"", "Ini", "INS", "gfa", "setg", "x00", "x07", "x08", "x15", "x16", "x17", "shw", "gsf", "sf", "format", "ini", "ins", "inx", "cst", "gx", "gi", "gs", "arr", "n", "m", "acc", "acc2", "blk", "i", "tmp", "late", "nf", "extra", "nosuch", "tick"}
 
 func (g *c15g) readOp(obj int) plan.Op {
 	switch g.r.Intn(5) {
@@ -365,7 +367,8 @@ func genC15(r *plan.Rng) *plan.Plan {
 			a, b := g.u(), g.u()
 			pa := plan.Map(map[string]plan.Value{"a": plan.GoInt(a), "b": plan.Int(b), "s": plan.Str(fmt.Sprintf("e%d", a)),
 				"ab": plan.Int(a + 7), "abc": plan.Int(a + 9), "cpy": plan.Int(b + 3)})
-			expr := []string{"a + b * 2", "s + \"x\"", "[a, b][1]", "a > b ? a : b", "{k: a}.k", "len(s) + a", "ab - a", "abc - ab + a", "cpy + 1"}[r.Intn(9)]
+			expr := []string{"a + b * 2", "s + \"x\"", "[a, b][1]", "a > b ? a : b", "{k: a}.k", "len(s) + a", "ab - a", "abc - ab + a", "cpy + 1",
+				"'a' + 1", "bytes(s)", "undefined", "error(s)", "[a, {k: b}]", "immutable([a])", "time(b)", "a / 2.0", "s[1]", "{}", "[]", "a == b"}[r.Intn(21)]
 			ops = append(ops, plan.Op{Kind: plan.OpEval, Expr: expr, Val: &pa})
 		}
 	}
